@@ -158,7 +158,12 @@ class MetadataManager:
 
             try:
                 # PHASE 1: Validation (inside lock to prevent races)
-                current = self.refresh()
+                validated_info = self._current_version_info()
+                current = (
+                    self._read_metadata_file(f"{self.metadata_path}/{validated_info[1]}")
+                    if validated_info is not None
+                    else None
+                )
 
                 # Check UUID consistency
                 if current and current.table_uuid != base_metadata.table_uuid:
@@ -201,6 +206,19 @@ class MetadataManager:
                         parsed = self._parse_hint_content(hint_bytes)
                         if parsed is not None:
                             filesystem_version, previous_metadata_file = parsed
+                            # The ETag must belong to the pointer that named the
+                            # version we validated against. If the pointer now
+                            # names another committed version, someone committed
+                            # between validation and this read: a CAS keyed to the
+                            # NEW ETag would succeed and silently drop that commit.
+                            if (
+                                validated_info is not None
+                                and parsed[1] != validated_info[1]
+                                and self.storage.exists(f"{self.metadata_path}/{parsed[1]}")
+                            ):
+                                raise ConcurrentModificationException(
+                                    "Version hint changed between validation and the ETag read; retrying"
+                                )
                     except FileNotFoundError:
                         hint_etag = None
                 if filesystem_version is None:
